@@ -430,6 +430,24 @@ def packChunk(msg):
     lines.append(b'\r\n')
     return (b''.join(lines))
 
+def findEol(raw, eols):
+    """
+    Returns tuple (index, eol) of the eol in eols that occurs earliest in raw
+    bytearray, the longest one when several start at the same index (CRLF over CR).
+    Returns (-1, None) when raw contains none of eols.
+
+    The search is by position not by order of eols so that a line is never
+    extended past its own terminator to some later terminator of another type
+    that happens to already be in raw.
+    """
+    found = (-1, None)
+    for eol in eols:
+        index = raw.find(eol)  # not found index == -1
+        if index >= 0 and (found[0] < 0 or index < found[0] or
+                           (index == found[0] and len(eol) > len(found[1]))):
+            found = (index, eol)
+    return found
+
 def parseLine(raw, eols=(CRLF, LF, CR ), kind="event line"):
     """
     Generator to parse  line from raw bytearray
@@ -444,10 +462,7 @@ def parseLine(raw, eols=(CRLF, LF, CR ), kind="event line"):
     Raise error if eol not found before MAX_LINE_SIZE
     """
     while True:
-        for eol in eols:  # loop over eols unless found
-            index = raw.find(eol)  # not found index == -1
-            if index >= 0:
-                break
+        index, eol = findEol(raw, eols)  # earliest eol if any
 
         if index < 0:  # not found
             if len(raw) > MAX_LINE_SIZE:
@@ -476,10 +491,7 @@ def parseLeader(raw, eols=(CRLF, LF), kind="leader header line", headers=None):
     """
     headers = headers if headers is not None else cimdict()
     while True:  # loop until entire heading indicated by empty line
-        for eol in eols:  # loop over eols unless found
-            index = raw.find(eol)  # not found index == -1
-            if index >= 0:
-                break
+        index, eol = findEol(raw, eols)  # earliest eol if any
 
         if index < 0:  # not found
             if len(raw) > MAX_LINE_SIZE:
